@@ -83,6 +83,8 @@ pub mod ST {
     pub static mut cur_delivery_ops: u32 = 0;
     // NEST
     pub static mut nest_depth: u32 = 0;
+    pub static mut ops_by_depth: [u32; 4] = [0; 4]; // operations executed at each nesting depth
+    pub static mut interrupts_taken: u32 = 0;
     pub static mut nest_max_depth: u32 = 0;
     pub static mut nest_budget: u32 = 0;
     pub static mut cas_fail_budget: u32 = 0;
@@ -160,6 +162,9 @@ pub struct Hooks {
     pub terminated: fn(),
     /// A read on an empty descriptor would block; true = bytes arrived meanwhile.
     pub block: fn(crate::c_int) -> bool,
+    /// The running code spins/yields a second time although nobody else can run
+    /// (SEQ / NEST): it waits for another thread.  The harness asserts here.
+    pub stuck: fn(),
 }
 fn no_interrupt(_: u8, _: usize) {}
 fn no_deliver(_: crate::c_int) {}
@@ -167,11 +172,13 @@ fn no_terminated() {}
 fn no_block(_: crate::c_int) -> bool {
     false
 }
+fn no_stuck() {}
 pub static mut HOOKS: Hooks = Hooks {
     interrupt: no_interrupt,
     deliver: no_deliver,
     terminated: no_terminated,
     block: no_block,
+    stuck: no_stuck,
 };
 
 // ---------------------------------------------------------------------------
@@ -462,6 +469,9 @@ pub fn point(kind: u8, var: usize, ord: Ordering) {
             return;
         }
         ST::ops[kind as usize] += 1;
+        if (ST::nest_depth as usize) < 4 {
+            ST::ops_by_depth[ST::nest_depth as usize] += 1;
+        }
         if ST::delivery_depth > 0 {
             ST::ops_in_delivery[kind as usize] += 1;
             ST::cur_delivery_ops += 1;
@@ -496,7 +506,17 @@ pub fn sys_point() {
 pub fn consume_interrupt() {
     unsafe {
         ST::nest_budget -= 1;
+        ST::interrupts_taken += 1;
     }
+}
+pub fn ops_at_depth(d: usize) -> u32 {
+    unsafe { ST::ops_by_depth[d] }
+}
+pub fn interrupts_taken() -> u32 {
+    unsafe { ST::interrupts_taken }
+}
+pub fn cas_fails() -> u32 {
+    unsafe { ST::cas_fails }
 }
 pub fn nest_depth() -> u32 {
     unsafe { ST::nest_depth }
@@ -1066,6 +1086,7 @@ pub fn spin() {
             // the code waits for something that will never change.
             if ST::spins >= 2 {
                 ST::spin_stuck = true;
+                (HOOKS.stuck)();
                 assume(false);
             }
         }
@@ -1312,8 +1333,8 @@ pub mod cell {
             }
             let mut idx = usize::MAX;
             let mut i = 0;
-            while i < NCELL {
-                if i < CELLS::n && CELLS::addr[i] == addr && idx == usize::MAX {
+            while i < CELLS::n {
+                if CELLS::addr[i] == addr && idx == usize::MAX {
                     idx = i;
                 }
                 i += 1;
@@ -1428,7 +1449,9 @@ pub mod mem {
 // maps: fixed-capacity stand-ins for HashMap / BTreeMap (DESIGN §2.5)
 // ---------------------------------------------------------------------------
 pub mod maps {
-    pub const CAP: usize = 4;
+    /// capacities: signals map 2 entries, actions map 3 entries (harness bounds)
+    pub const CAP: usize = 3;
+    pub const HCAP: usize = 2;
 
     fn overflow() -> ! {
         super::flag(super::E_MAPCAP);
@@ -1436,279 +1459,372 @@ pub mod maps {
         loop {}
     }
 
-    #[derive(Clone)]
-    pub struct FixedMap<K, V> {
-        pub e: [Option<(K, V)>; CAP],
+    /// Keys and length are kept apart from the values so that look-ups never
+    /// read the (niche-encoded) discriminant of a value slot: with everything
+    /// concrete CBMC folds every look-up, and no destructor of a slot that is
+    /// known to be empty is ever explored.
+    /// No unions (MaybeUninit) inside: CBMC copies unions bytewise and then can
+    /// no longer fold `n` after a move.  Empty value slots hold `None` and are
+    /// never inspected or dropped (ManuallyDrop + explicit length).
+    pub struct FixedMap<K, V, const N: usize> {
+        pub n: usize,
+        pub k: [Option<K>; N],
+        pub v: ::std::mem::ManuallyDrop<[Option<Box<V>>; N]>,
+    }
+    impl<K, V, const N: usize> Drop for FixedMap<K, V, N> {
+        fn drop(&mut self) {
+            let mut i = 0;
+            while i < N {
+                if i < self.n {
+                    unsafe { ::std::ptr::drop_in_place(&mut self.v[i]) };
+                }
+                i += 1;
+            }
+            self.n = 0;
+        }
+    }
+    impl<K: Copy, V: Clone, const N: usize> Clone for FixedMap<K, V, N> {
+        fn clone(&self) -> Self {
+            let mut m = FixedMap {
+                n: 0,
+                k: self.k,
+                v: ::std::mem::ManuallyDrop::new(::std::array::from_fn(|_| None)),
+            };
+            let mut i = 0;
+            while i < N {
+                if i < self.n {
+                    let c = self.v[i].as_ref().map(|x| Box::new((**x).clone()));
+                    unsafe { ::std::ptr::write(&mut m.v[i], c) };
+                }
+                i += 1;
+            }
+            m.n = self.n;
+            m
+        }
     }
 
-    impl<K: Ord + Copy, V> FixedMap<K, V> {
+    // All array accesses below use the (concrete) loop counter as index and put
+    // the data-dependent part into the guard: a write at a symbolic offset into
+    // a heap object costs CBMC a byte-level multiplexer over the whole object.
+    impl<K: Ord + Copy, V, const N: usize> FixedMap<K, V, N> {
         pub fn new() -> Self {
             FixedMap {
-                e: [None, None, None, None],
+                n: 0,
+                k: [None; N],
+                v: ::std::mem::ManuallyDrop::new(::std::array::from_fn(|_| None)),
             }
         }
         pub fn len(&self) -> usize {
-            let mut n = 0;
-            let mut i = 0;
-            while i < CAP {
-                if self.e[i].is_some() {
-                    n += 1;
-                }
-                i += 1;
-            }
-            n
+            self.n
         }
         pub fn is_empty(&self) -> bool {
-            self.e[0].is_none()
+            self.n == 0
         }
-        fn pos(&self, k: &K) -> Option<usize> {
+        fn key_is(&self, i: usize, k: &K) -> bool {
+            match self.k[i] {
+                Some(ref kk) => *kk == *k,
+                None => false,
+            }
+        }
+        pub fn get(&self, k: &K) -> Option<&V> {
             let mut i = 0;
-            let mut r = None;
-            while i < CAP {
-                if let Some((ref kk, _)) = self.e[i] {
-                    if *kk == *k && r.is_none() {
-                        r = Some(i);
-                    }
+            while i < N {
+                if i < self.n && self.key_is(i, k) {
+                    return self.v[i].as_deref();
                 }
                 i += 1;
             }
-            r
-        }
-        pub fn get(&self, k: &K) -> Option<&V> {
-            match self.pos(k) {
-                Some(i) => self.e[i].as_ref().map(|kv| &kv.1),
-                None => None,
-            }
+            None
         }
         pub fn get_mut(&mut self, k: &K) -> Option<&mut V> {
-            match self.pos(k) {
-                Some(i) => self.e[i].as_mut().map(|kv| &mut kv.1),
-                None => None,
+            let mut i = 0;
+            while i < N {
+                if i < self.n && self.key_is(i, k) {
+                    return self.v[i].as_deref_mut();
+                }
+                i += 1;
             }
+            None
         }
         pub fn contains_key(&self, k: &K) -> bool {
-            self.pos(k).is_some()
+            self.get(k).is_some()
         }
-        /// Sorted insert (entries are kept contiguous and in ascending key order).
+        /// Sorted insert (entries are contiguous and in ascending key order).
         pub fn insert(&mut self, k: K, v: V) -> Option<V> {
-            if let Some(i) = self.pos(&k) {
-                let old = self.e[i].take();
-                self.e[i] = Some((k, v));
-                return old.map(|kv| kv.1);
+            // replace?
+            let mut i = 0;
+            while i < N {
+                if i < self.n && self.key_is(i, &k) {
+                    let old = unsafe { ::std::ptr::read(&self.v[i]) };
+                    unsafe { ::std::ptr::write(&mut self.v[i], Some(Box::new(v))) };
+                    return old.map(|b| *b);
+                }
+                i += 1;
             }
-            let n = self.len();
-            if n >= CAP {
+            let n = self.n;
+            if n >= N {
                 overflow();
             }
-            // find insertion point
-            let mut at = n;
+            // number of existing keys smaller than k = insertion position
+            let mut at = 0;
             let mut i = 0;
-            while i < CAP {
+            while i < N {
                 if i < n {
-                    if let Some((ref kk, _)) = self.e[i] {
-                        if *kk > k && at == n {
-                            at = i;
+                    if let Some(ref kk) = self.k[i] {
+                        if *kk < k {
+                            at += 1;
                         }
                     }
                 }
                 i += 1;
             }
-            // shift right
-            let mut j = CAP - 1;
-            while j > 0 {
-                if j > at && j <= n {
-                    self.e[j] = self.e[j - 1].take();
-                }
+            // shift right, highest first; every index is the loop counter
+            let mut j = N;
+            while j > 1 {
                 j -= 1;
+                // move j-1 -> j when at <= j-1 < n
+                if j <= n && j > at {
+                    unsafe {
+                        let x = ::std::ptr::read(&self.v[j - 1]);
+                        ::std::ptr::write(&mut self.v[j], x);
+                    }
+                    self.k[j] = self.k[j - 1];
+                }
             }
-            self.e[at] = Some((k, v));
+            let mut v = Some(Box::new(v));
+            let mut i = 0;
+            while i < N {
+                if i == at {
+                    unsafe { ::std::ptr::write(&mut self.v[i], v.take()) };
+                    self.k[i] = Some(k);
+                }
+                i += 1;
+            }
+            ::std::mem::forget(v);
+            self.n = n + 1;
             None
         }
         pub fn remove(&mut self, k: &K) -> Option<V> {
-            match self.pos(k) {
-                None => None,
-                Some(i) => {
-                    let old = self.e[i].take();
-                    let mut j = 0;
-                    while j + 1 < CAP {
-                        if j >= i {
-                            self.e[j] = self.e[j + 1].take();
-                        }
-                        j += 1;
-                    }
-                    old.map(|kv| kv.1)
+            let mut found = N;
+            let mut i = 0;
+            while i < N {
+                if i < self.n && found == N && self.key_is(i, k) {
+                    found = i;
                 }
+                i += 1;
             }
+            if found == N {
+                return None;
+            }
+            let mut old = None;
+            let mut i = 0;
+            while i < N {
+                if i == found {
+                    old = unsafe { ::std::ptr::read(&self.v[i]) };
+                }
+                if i >= found && i + 1 < N && i + 1 < self.n {
+                    unsafe {
+                        let x = ::std::ptr::read(&self.v[i + 1]);
+                        ::std::ptr::write(&mut self.v[i], x);
+                    }
+                    self.k[i] = self.k[i + 1];
+                }
+                if i + 1 == self.n {
+                    unsafe { ::std::ptr::write(&mut self.v[i], None) };
+                    self.k[i] = None;
+                }
+                i += 1;
+            }
+            self.n -= 1;
+            old.map(|b| *b)
         }
         pub fn clear(&mut self) {
             let mut i = 0;
-            while i < CAP {
-                self.e[i] = None;
+            while i < N {
+                if i < self.n {
+                    unsafe {
+                        ::std::ptr::drop_in_place(&mut self.v[i]);
+                        ::std::ptr::write(&mut self.v[i], None);
+                    }
+                }
                 i += 1;
             }
+            self.n = 0;
         }
-        pub fn iter(&self) -> Iter<'_, K, V> {
+        pub fn iter(&self) -> Iter<'_, K, V, N> {
             Iter {
                 m: self,
                 front: 0,
-                back: self.len(),
+                back: self.n,
             }
         }
-        pub fn values(&self) -> Values<'_, K, V> {
+        pub fn values(&self) -> Values<'_, K, V, N> {
             Values { it: self.iter() }
         }
-        pub fn keys(&self) -> Keys<'_, K, V> {
+        pub fn keys(&self) -> Keys<'_, K, V, N> {
             Keys { it: self.iter() }
         }
-        pub fn values_mut(&mut self) -> ::std::iter::FilterMap<
-            ::std::slice::IterMut<'_, Option<(K, V)>>,
-            fn(&mut Option<(K, V)>) -> Option<&mut V>,
-        > {
-            fn f<K, V>(x: &mut Option<(K, V)>) -> Option<&mut V> {
-                x.as_mut().map(|kv| &mut kv.1)
-            }
-            self.e.iter_mut().filter_map(f::<K, V>)
-        }
-        pub fn retain<F: FnMut(&K, &mut V) -> bool>(&mut self, mut f: F) {
-            let mut i = 0;
-            while i < CAP {
-                let keep = match self.e[i] {
-                    Some((ref k, ref mut v)) => f(k, v),
-                    None => true,
-                };
-                if !keep {
-                    let k = self.e[i].as_ref().map(|kv| kv.0).unwrap();
-                    self.remove(&k);
-                } else {
-                    i += 1;
+        pub fn first_key_value(&self) -> Option<(&K, &V)> {
+            if self.n == 0 {
+                None
+            } else {
+                match (&self.k[0], &self.v[0]) {
+                    (Some(k), Some(v)) => Some((k, &**v)),
+                    _ => None,
                 }
             }
         }
-        pub fn first_key_value(&self) -> Option<(&K, &V)> {
-            self.e[0].as_ref().map(|kv| (&kv.0, &kv.1))
-        }
-        pub fn last_key_value(&self) -> Option<(&K, &V)> {
-            let n = self.len();
-            if n == 0 {
-                None
-            } else {
-                self.e[n - 1].as_ref().map(|kv| (&kv.0, &kv.1))
+        pub fn entry(&mut self, k: K) -> Entry<'_, K, V, N> {
+            let mut i = 0;
+            while i < N {
+                if i < self.n && self.key_is(i, &k) {
+                    return Entry::Occupied(OccupiedEntry { m: self, i });
+                }
+                i += 1;
             }
-        }
-        pub fn entry(&mut self, k: K) -> Entry<'_, K, V> {
-            match self.pos(&k) {
-                Some(i) => Entry::Occupied(OccupiedEntry { m: self, i }),
-                None => Entry::Vacant(VacantEntry { m: self, k }),
-            }
+            Entry::Vacant(VacantEntry { m: self, k })
         }
     }
-    impl<K: Ord + Copy, V> Default for FixedMap<K, V> {
+    impl<K: Ord + Copy, V, const N: usize> Default for FixedMap<K, V, N> {
         fn default() -> Self {
             Self::new()
         }
     }
 
-    pub struct Iter<'a, K: 'a, V: 'a> {
-        m: &'a FixedMap<K, V>,
+    pub struct Iter<'a, K: 'a, V: 'a, const N: usize> {
+        m: &'a FixedMap<K, V, N>,
         front: usize,
         back: usize,
     }
-    impl<'a, K, V> Iterator for Iter<'a, K, V> {
+    impl<'a, K, V, const N: usize> Iterator for Iter<'a, K, V, N> {
         type Item = (&'a K, &'a V);
         fn next(&mut self) -> Option<Self::Item> {
             if self.front < self.back {
-                let i = self.front;
+                let f = self.front;
                 self.front += 1;
-                self.m.e[i].as_ref().map(|kv| (&kv.0, &kv.1))
+                let mut i = 0;
+                while i < N {
+                    if i == f {
+                        return match (&self.m.k[i], &self.m.v[i]) {
+                            (Some(k), Some(v)) => Some((k, &**v)),
+                            _ => None,
+                        };
+                    }
+                    i += 1;
+                }
+                None
             } else {
                 None
             }
         }
     }
-    impl<'a, K, V> DoubleEndedIterator for Iter<'a, K, V> {
+    impl<'a, K, V, const N: usize> DoubleEndedIterator for Iter<'a, K, V, N> {
         fn next_back(&mut self) -> Option<Self::Item> {
             if self.front < self.back {
                 self.back -= 1;
-                self.m.e[self.back].as_ref().map(|kv| (&kv.0, &kv.1))
+                let b = self.back;
+                let mut i = 0;
+                while i < N {
+                    if i == b {
+                        return match (&self.m.k[i], &self.m.v[i]) {
+                            (Some(k), Some(v)) => Some((k, &**v)),
+                            _ => None,
+                        };
+                    }
+                    i += 1;
+                }
+                None
             } else {
                 None
             }
         }
     }
-    pub struct Values<'a, K: 'a, V: 'a> {
-        it: Iter<'a, K, V>,
+    pub struct Values<'a, K: 'a, V: 'a, const N: usize> {
+        it: Iter<'a, K, V, N>,
     }
-    impl<'a, K, V> Iterator for Values<'a, K, V> {
+    impl<'a, K, V, const N: usize> Iterator for Values<'a, K, V, N> {
         type Item = &'a V;
         fn next(&mut self) -> Option<&'a V> {
             self.it.next().map(|kv| kv.1)
         }
     }
-    impl<'a, K, V> DoubleEndedIterator for Values<'a, K, V> {
+    impl<'a, K, V, const N: usize> DoubleEndedIterator for Values<'a, K, V, N> {
         fn next_back(&mut self) -> Option<&'a V> {
             self.it.next_back().map(|kv| kv.1)
         }
     }
-    pub struct Keys<'a, K: 'a, V: 'a> {
-        it: Iter<'a, K, V>,
+    pub struct Keys<'a, K: 'a, V: 'a, const N: usize> {
+        it: Iter<'a, K, V, N>,
     }
-    impl<'a, K, V> Iterator for Keys<'a, K, V> {
+    impl<'a, K, V, const N: usize> Iterator for Keys<'a, K, V, N> {
         type Item = &'a K;
         fn next(&mut self) -> Option<&'a K> {
             self.it.next().map(|kv| kv.0)
         }
     }
-    impl<'a, K, V> DoubleEndedIterator for Keys<'a, K, V> {
+    impl<'a, K, V, const N: usize> DoubleEndedIterator for Keys<'a, K, V, N> {
         fn next_back(&mut self) -> Option<&'a K> {
             self.it.next_back().map(|kv| kv.0)
         }
     }
-    impl<'a, K: Ord + Copy, V> IntoIterator for &'a FixedMap<K, V> {
+    impl<'a, K: Ord + Copy, V, const N: usize> IntoIterator for &'a FixedMap<K, V, N> {
         type Item = (&'a K, &'a V);
-        type IntoIter = Iter<'a, K, V>;
-        fn into_iter(self) -> Iter<'a, K, V> {
+        type IntoIter = Iter<'a, K, V, N>;
+        fn into_iter(self) -> Iter<'a, K, V, N> {
             self.iter()
         }
     }
 
-    pub enum Entry<'a, K: 'a, V: 'a> {
-        Occupied(OccupiedEntry<'a, K, V>),
-        Vacant(VacantEntry<'a, K, V>),
+    pub enum Entry<'a, K: 'a, V: 'a, const N: usize> {
+        Occupied(OccupiedEntry<'a, K, V, N>),
+        Vacant(VacantEntry<'a, K, V, N>),
     }
-    pub struct OccupiedEntry<'a, K: 'a, V: 'a> {
-        m: &'a mut FixedMap<K, V>,
+    pub struct OccupiedEntry<'a, K: 'a, V: 'a, const N: usize> {
+        m: &'a mut FixedMap<K, V, N>,
         i: usize,
     }
-    pub struct VacantEntry<'a, K: 'a, V: 'a> {
-        m: &'a mut FixedMap<K, V>,
+    pub struct VacantEntry<'a, K: 'a, V: 'a, const N: usize> {
+        m: &'a mut FixedMap<K, V, N>,
         k: K,
     }
-    impl<'a, K: Ord + Copy, V> OccupiedEntry<'a, K, V> {
+    impl<'a, K: Ord + Copy, V, const N: usize> OccupiedEntry<'a, K, V, N> {
         pub fn get(&self) -> &V {
-            &self.m.e[self.i].as_ref().unwrap().1
+            match self.m.v[self.i] {
+                Some(ref v) => &**v,
+                None => overflow(),
+            }
         }
         pub fn get_mut(&mut self) -> &mut V {
-            &mut self.m.e[self.i].as_mut().unwrap().1
+            match self.m.v[self.i] {
+                Some(ref mut v) => &mut **v,
+                None => overflow(),
+            }
         }
         pub fn into_mut(self) -> &'a mut V {
-            &mut self.m.e[self.i].as_mut().unwrap().1
+            match self.m.v[self.i] {
+                Some(ref mut v) => &mut **v,
+                None => overflow(),
+            }
         }
         pub fn insert(&mut self, v: V) -> V {
             ::std::mem::replace(self.get_mut(), v)
         }
         pub fn remove(self) -> V {
-            let k = self.m.e[self.i].as_ref().unwrap().0;
+            let k = match self.m.k[self.i] {
+                Some(k) => k,
+                None => overflow(),
+            };
             self.m.remove(&k).unwrap()
         }
     }
-    impl<'a, K: Ord + Copy, V> VacantEntry<'a, K, V> {
+    impl<'a, K: Ord + Copy, V, const N: usize> VacantEntry<'a, K, V, N> {
         pub fn insert(self, v: V) -> &'a mut V {
             let k = self.k;
             self.m.insert(k, v);
             self.m.get_mut(&k).unwrap()
         }
     }
-    impl<'a, K: Ord + Copy, V> Entry<'a, K, V> {
+    impl<'a, K: Ord + Copy, V, const N: usize> Entry<'a, K, V, N> {
         pub fn or_insert(self, v: V) -> &'a mut V {
             match self {
                 Entry::Occupied(o) => o.into_mut(),
@@ -1723,8 +1839,8 @@ pub mod maps {
         }
     }
 
-    pub type HashMap<K, V> = FixedMap<K, V>;
-    pub type BTreeMap<K, V> = FixedMap<K, V>;
+    pub type HashMap<K, V> = FixedMap<K, V, HCAP>;
+    pub type BTreeMap<K, V> = FixedMap<K, V, CAP>;
     pub mod hash_map {
         pub use super::Entry;
         pub use super::HashMap;
@@ -1732,5 +1848,166 @@ pub mod maps {
     pub mod btree_map {
         pub use super::BTreeMap;
         pub use super::Entry;
+    }
+}
+
+// ---------------------------------------------------------------------------
+// sync: Arc is std's; Once is a plain flag (std's futex-based Once drags the
+// time / io::Error machinery into every registry harness)
+// ---------------------------------------------------------------------------
+pub mod sync {
+    pub use super::{Mutex, MutexGuard, PoisonError};
+    use std::marker::{PhantomData, Unsize};
+    use std::ops::{CoerceUnsized, Deref};
+    use std::ptr::NonNull;
+
+    /// Reference-counted pointer with std::sync::Arc's interface, used by the
+    /// registry under `sighook_verif`.  std's Arc is trusted, and its drop path
+    /// (drop_slow -> virtual drop_in_place::<dyn Fn> -> Weak -> dealloc) is what
+    /// makes CBMC explode whenever it cannot fold a length after a snapshot was
+    /// copied.  Here clone/drop are a counter; when the count reaches zero the
+    /// *release* is recorded as a ghost event (who, inside a delivery or not)
+    /// and the payload is leaked, never destroyed.
+    pub const NARC: usize = 12;
+    #[allow(non_snake_case)]
+    pub mod ARCS {
+        use super::NARC;
+        pub static mut next: usize = 0;
+        pub static mut released: [u8; NARC] = [0; NARC];
+        pub static mut released_by: [usize; NARC] = [usize::MAX; NARC];
+        pub static mut released_at: [usize; NARC] = [usize::MAX; NARC];
+        pub static mut released_in_delivery: [bool; NARC] = [false; NARC];
+        pub static mut used_after_release: [bool; NARC] = [false; NARC];
+    }
+    pub struct ArcInner<T: ?Sized> {
+        strong: ::std::cell::Cell<usize>,
+        id: usize,
+        data: T,
+    }
+    pub struct Arc<T: ?Sized> {
+        ptr: NonNull<ArcInner<T>>,
+        _p: PhantomData<ArcInner<T>>,
+    }
+    unsafe impl<T: ?Sized + Sync + Send> Send for Arc<T> {}
+    unsafe impl<T: ?Sized + Sync + Send> Sync for Arc<T> {}
+    impl<T: ?Sized + Unsize<U>, U: ?Sized> CoerceUnsized<Arc<U>> for Arc<T> {}
+
+    impl<T> Arc<T> {
+        pub fn new(data: T) -> Arc<T> {
+            let id = unsafe {
+                let i = ARCS::next;
+                ARCS::next += 1;
+                i
+            };
+            let b = Box::new(ArcInner {
+                strong: ::std::cell::Cell::new(1),
+                id,
+                data,
+            });
+            Arc {
+                ptr: unsafe { NonNull::new_unchecked(Box::into_raw(b)) },
+                _p: PhantomData,
+            }
+        }
+    }
+    impl<T: ?Sized> Arc<T> {
+        fn inner(&self) -> &ArcInner<T> {
+            unsafe { self.ptr.as_ref() }
+        }
+        pub fn strong_count(this: &Self) -> usize {
+            this.inner().strong.get()
+        }
+        pub fn ptr_eq(a: &Self, b: &Self) -> bool {
+            a.inner().id == b.inner().id
+        }
+        pub fn verif_id(this: &Self) -> usize {
+            this.inner().id
+        }
+        pub fn as_ptr(this: &Self) -> *const T {
+            &this.inner().data
+        }
+    }
+    impl<T: ?Sized> Clone for Arc<T> {
+        fn clone(&self) -> Arc<T> {
+            let i = self.inner();
+            i.strong.set(i.strong.get() + 1);
+            Arc {
+                ptr: self.ptr,
+                _p: PhantomData,
+            }
+        }
+    }
+    impl<T: ?Sized> Drop for Arc<T> {
+        fn drop(&mut self) {
+            let i = self.inner();
+            let c = i.strong.get();
+            i.strong.set(c.wrapping_sub(1));
+            if c == 1 {
+                unsafe {
+                    if i.id < NARC {
+                        ARCS::released[i.id] += 1;
+                        ARCS::released_by[i.id] = super::ST::tid;
+                        ARCS::released_at[i.id] = super::now();
+                        ARCS::released_in_delivery[i.id] = super::ST::delivery_depth > 0;
+                    }
+                }
+            }
+        }
+    }
+    impl<T: ?Sized> Deref for Arc<T> {
+        type Target = T;
+        fn deref(&self) -> &T {
+            let i = self.inner();
+            if i.strong.get() == 0 && i.id < NARC {
+                unsafe { ARCS::used_after_release[i.id] = true };
+            }
+            &i.data
+        }
+    }
+    impl<T> From<T> for Arc<T> {
+        fn from(t: T) -> Arc<T> {
+            Arc::new(t)
+        }
+    }
+    impl<T: ?Sized> ::std::fmt::Debug for Arc<T> {
+        fn fmt(&self, f: &mut ::std::fmt::Formatter) -> ::std::fmt::Result {
+            f.write_str("Arc")
+        }
+    }
+    impl<T: ?Sized> AsRef<T> for Arc<T> {
+        fn as_ref(&self) -> &T {
+            &**self
+        }
+    }
+    impl<T: ?Sized> ::std::borrow::Borrow<T> for Arc<T> {
+        fn borrow(&self) -> &T {
+            &**self
+        }
+    }
+
+    pub struct Once {
+        done: ::std::cell::UnsafeCell<bool>,
+    }
+    unsafe impl Sync for Once {}
+    pub const ONCE_INIT: Once = Once {
+        done: ::std::cell::UnsafeCell::new(false),
+    };
+    impl Once {
+        pub const fn new() -> Once {
+            Once {
+                done: ::std::cell::UnsafeCell::new(false),
+            }
+        }
+        pub fn call_once<F: FnOnce()>(&self, f: F) {
+            unsafe {
+                if !*self.done.get() {
+                    f();
+                    *self.done.get() = true;
+                }
+            }
+        }
+        pub fn is_completed(&self) -> bool {
+            unsafe { *self.done.get() }
+        }
     }
 }
